@@ -9,6 +9,8 @@
 // output: one line; per op   <A|T|R> <codeParam> <totalSize> <alignment> <n> code:off.. | lookups.. | contains.. | v:addend..
 //   then  " ; raw <ok|FAIL ...>"  (create / import (same list, other list) / destroy of raws, with construction
 //   counting and injected construction failures; checked here, the model side prints the constant "raw ok")
+//   then  " ; ev n: C<i> .. D<i> .. | 0: .. | 1: .."  construction/destruction order of the instrumented items (by column
+//   position) for CreateRaw+DestroyRaw and for CreateRaw with the k-th instrumented construction throwing (L2 model)
 #include "private_access.h"
 #include "momo/DataColumn.h"
 using namespace momo;
@@ -20,10 +22,11 @@ struct Registry
 	std::map<const void*, int> live;      // address -> tag
 	std::map<const void*, int> nctor, ndtor;
 	std::vector<std::string> errors;
+	std::vector<std::pair<char, const void*>> log;   // constructions / destructions in order
 	long failAt = -1;                     // the k-th (0-based) construction from now throws
 	ull ctorSteps = 0;
 	void error(const std::string& s) { if (errors.size() < 20) errors.push_back(s); }
-	void reset() { live.clear(); nctor.clear(); ndtor.clear(); errors.clear(); failAt = -1; ctorSteps = 0; }
+	void reset() { live.clear(); nctor.clear(); ndtor.clear(); errors.clear(); log.clear(); failAt = -1; ctorSteps = 0; }
 	void step() { ++ctorSteps; if (failAt >= 0 && failAt-- == 0) { failAt = -1; throw std::domain_error("injected"); } }
 };
 static Registry& R() { static Registry r; return r; }
@@ -41,7 +44,7 @@ struct alignas(Align) Cnt
 	{
 		if (reinterpret_cast<uintptr_t>(this) % Align != 0) R().error("misaligned construction");
 		if (R().live.count(this)) R().error("double construction at the same address");
-		R().live[this] = t; ++R().nctor[this];
+		R().live[this] = t; ++R().nctor[this]; R().log.push_back({ 'C', this });
 	}
 	Cnt() { R().step(); std::memset(bytes, 0, Size); str() = new std::string("default constructed, long enough to allocate"); tag() = -1; reg(-1); }
 	Cnt(const Cnt& c) { R().step(); std::memset(bytes, 0, Size); str() = new std::string(*c.str()); tag() = c.tag(); reg(c.tag()); }
@@ -50,7 +53,7 @@ struct alignas(Align) Cnt
 	{
 		auto it = R().live.find(this);
 		if (it == R().live.end()) { R().error("destruction of an object that is not alive"); return; }
-		R().live.erase(it); ++R().ndtor[this];
+		R().live.erase(it); ++R().ndtor[this]; R().log.push_back({ 'D', this });
 		delete str();
 	}
 };
@@ -159,12 +162,14 @@ struct Runner
 		case 1 * 16 + 11: add2<1, 11>(cl, g.data()); return;
 		case 13 * 16 + 0: add2<13, 0>(cl, g.data()); return;
 		case 3 * 16 + 3: add2<3, 3>(cl, g.data()); return;
+		case 10 * 16 + 12: add2<10, 12>(cl, g.data()); return;
 		}
 		if (g.size() == 3) switch (k)
 		{
 		case 0 * 256 + 10 * 16 + 3: add3<0, 10, 3>(cl, g.data()); return;
 		case 4 * 256 + 12 * 16 + 9: add3<4, 12, 9>(cl, g.data()); return;
 		case 2 * 256 + 5 * 16 + 13: add3<2, 5, 13>(cl, g.data()); return;
+		case 11 * 256 + 13 * 16 + 10: add3<11, 13, 10>(cl, g.data()); return;
 		}
 		throw HarnessError{"unsupported group"};
 	}
@@ -198,7 +203,7 @@ struct Runner
 		RawBuf(size_t sz, size_t al) : size(sz) { size_t a = std::max<size_t>(al, 16); p = std::aligned_alloc(a, ((sz + a - 1) / a + 1) * a); std::memset(p, 0xCD, sz); }
 		~RawBuf() { std::free(p); }
 	};
-	std::string rawErr;
+	std::string rawErr, evTrace;
 	void fail(const std::string& s) { if (rawErr.empty()) rawErr = s; }
 
 	template<size_t t> void setCol(void* raw, size_t off, int seed) { setVal(CL::template GetByOffset<typename TypeOf<t>::T>(raw, off), seed); }
@@ -261,6 +266,25 @@ struct Runner
 			for (auto& kv : R().nctor) if (kv.second != 1 || R().ndtor[kv.first] != 1) fail("an item was not constructed and destroyed exactly once");
 			for (auto& e : R().errors) fail(e);
 		}
+		// event traces (by column position) of the instrumented items, compared with the L2 model RawLife.v
+		auto trace = [&] (const void* base)
+		{
+			std::string t;
+			for (auto& e : R().log)
+			{
+				size_t pos = size_t(-1);
+				for (size_t i = 0; i < colsA.size(); ++i)
+					if (static_cast<const char*>(base) + lookup(A, colsA[i].code) == static_cast<const char*>(e.second)) pos = i;
+				t += std::string(" ") + e.first + std::to_string(pos);
+			}
+			return t;
+		};
+		{
+			R().reset();
+			RawBuf a(A.GetTotalSize(), A.GetAlignment());
+			A.CreateRaw(mm, a.p); A.DestroyRaw(&mm, a.p);
+			evTrace = "n:" + trace(a.p);
+		}
 		// injected construction failures: whatever was constructed is destroyed again, exactly once
 		for (size_t k = 0; k < cntA; ++k)
 		{
@@ -268,6 +292,7 @@ struct Runner
 			RawBuf a(A.GetTotalSize(), A.GetAlignment());
 			bool thrown = false;
 			try { A.CreateRaw(mm, a.p); } catch (const std::domain_error&) { thrown = true; }
+			evTrace += " | " + std::to_string(k) + ":" + trace(a.p);
 			if (!thrown) fail("CreateRaw: injected failure not propagated");
 			if (!R().live.empty()) fail("CreateRaw failure: instrumented items left alive");
 			for (auto& kv : R().nctor) if (kv.second != 1 || R().ndtor[kv.first] != 1) fail("CreateRaw failure: construct/destroy counts differ");
@@ -313,7 +338,7 @@ struct Runner
 			dump(cl, 'C', added, universe, o1); dump(cl2, 'C', added, universe, o2);
 			if (o1 != o2) fail("copy-constructed column list differs");
 		}
-		out += " ; raw " + (rawErr.empty() ? std::string("ok") : "FAIL " + rawErr);
+		out += " ; raw " + (rawErr.empty() ? std::string("ok") : "FAIL " + rawErr) + " ; ev " + evTrace;
 		if (!problem.empty()) out = "HARNESS " + problem;
 		return out;
 	}
